@@ -211,6 +211,11 @@ func ghost_lastwrite(w io.Writer) string { panic("ghost") }
 //@   serves C13
 
 // NewSession: assumed initial state (its body only copies its arguments; bufio / net helpers).
+// The server serves the store it was given.
+//@ func NewServer
+//@   ensures[givenStore C13] ret1 == nil ==> ret0 != nil && ret0.store == store && ret0.config.Domain == pop3Config.Domain && ret0.config.Timeout == pop3Config.Timeout
+//@   serves C13
+
 //@ func NewSession
 //@   requires server != nil && conn != nil
 //@   ensures ret != nil && vcFresh(ret) && ret.Server == server && ret.state == AUTHORIZATION && ret.conn == conn &&
